@@ -40,6 +40,7 @@ func assetsDoc(repo string) (J, error) {
 	parent["name"] = "Parent"
 	child := world.Render(fChild, world.FlowSpec{Nodes: []world.Node{{Kind: "S", Dests: []int{1, 1}}, {Kind: "W", Dests: []int{-1, -1}}}}, fParent)
 	child["name"] = "Child"
+	child["localization"] = J{"fra": J{world.UUID("f1.n1.c0"): J{"name": []any{"Oui"}}, world.UUID("f1.n1.c1"): J{"name": []any{"Autre"}}}}
 	// the S node's test has_any_word on an empty input returns the shared FalseResult
 	flowsList := []any{parent, child}
 	for _, f := range []string{"webhook_migrated.json", "legacy_timeout.json"} {
@@ -83,6 +84,7 @@ func flowUUID(i int) assets.FlowUUID {
 //	inspect:<flow> load and inspect a flow
 //	eval           evaluate templates in the session's context (router tests, lazy objects)
 //	find:<name>    look a flow up by name
+//	chlang:<flow>  change the language of a flow (must work on a copy)
 type Op string
 
 // Scripts is the menu of per-thread scripts.
@@ -91,7 +93,7 @@ var Scripts = map[string][]Op{
 	"child":   {"start:1", "eval", "resume"},
 	"old":     {"start:2", "inspect:2"},
 	"legacy":  {"inspect:3", "start:3"},
-	"inspect": {"inspect:0", "find:child", "inspect:1"},
+	"inspect": {"inspect:0", "find:child", "chlang:1", "inspect:1"},
 }
 
 var ScriptNames = []string{"family", "child", "old", "legacy", "inspect"}
@@ -222,6 +224,21 @@ func (t *Thread) Step(i int, sa flows.SessionAssets, eng flows.Engine) {
 			v, _, err := eng.Evaluator().Template(t.session.MergedEnvironment(), ctx, tpl, nil)
 			w("eval %s -> %s %v", tpl, v, err)
 		}
+	case "chlang":
+		var fi int
+		fmt.Sscanf(arg, "%d", &fi)
+		fl, err := sa.Flows().Get(flowUUID(fi))
+		if err != nil {
+			w("chlang %s: load error %v", arg, err)
+			return
+		}
+		cl, err := fl.ChangeLanguage("fra")
+		if err != nil {
+			w("chlang %s: %v", arg, err)
+			return
+		}
+		b, _ := json.Marshal(cl)
+		w("chlang %s: %s", arg, b)
 	case "find":
 		fl, err := sa.Flows().FindByName(arg)
 		if err != nil {
